@@ -211,11 +211,11 @@ class C07(Prop):
     classes = {}
     rule = ("matrix: 12 library roots (functions, tables, must_use / deprecated members, deprecated parameters) x 9 binding "
             "constructs (local with/without value, multi-name local, local function, parameter of a local function / of a function "
-            "expression, numeric for, generic for first/second name) x 24 use shapes (read, field, deep field, call statement, field "
+            "expression, numeric for, generic for first/second name) x 28 use shapes (read, field, deep field, call statement, field "
             "call, method call, assignments, deprecated member, bad argument, nil argument, nested argument, multiple assignment, "
             "table-call argument, table constructor fields and keys, operands, method arguments, parenthesised prefix, string call, loop condition, for bounds, closure body), each "
             "inside and outside the scope; quick samples the matrix (every binding x use pair at least once), thorough enumerates all "
-            "2592 combinations; the scope model's gate is evaluated on both trees; non-trivial = the blanked-out baseline has a diagnostic")
+            "3024 combinations; the scope model's gate is evaluated on both trees; non-trivial = the blanked-out baseline has a diagnostic")
     trusted_base = SCOPE_TRUST[:3] + [
         "proved: the gate drops exactly the nodes whose leading identifier resolved; renaming a binding away preserves every resolution status",
         "the three lints' visit lists are oracles (what they say at a node is not modelled here; C05/C06 model the checks themselves)",
